@@ -43,9 +43,9 @@ for _mn in ("none", "real"):
 
 
 # ---------------------------------------------------------------------------------------------------- Force.compute (C04, C06)
-def force_full(layers="none"):
+def force_full(layers="none", minpos="real"):
     return {"$obj": ("force", "Force"),
-            "fields": {"options": {"$dict": {"nodeSpacing": "real", "minPos": "real", "maxPos": "real",
+            "fields": {"options": {"$dict": {"nodeSpacing": "real", "minPos": minpos, "maxPos": "real",
                                              "algorithm": lambda E, P, name: Str(["overlap"]), "density": "real", "stubWidth": "real"}},
                        "distributor": {"$obj": ("distributor", "Distributor"),
                                        "fields": {"options": {"$dict": {"algorithm": lambda E, P, name: Str(["overlap"]),
@@ -89,8 +89,9 @@ def _ghost_passed_options(E, P, ctx, args):
     fr = E.new_frame(P, {"passed": args[1]})
     sctx = ctx.child(fr).asspec()
     for k in ("nodeSpacing", "minPos", "maxPos"):
-        E.prove_spec(P, "call.removeOverlap.receives_configured_%s" % k,
-                     "'%s' in passed and passed['%s'] == self.options['%s']" % (k, k, k), sctx, "assert")
+        E.prove_spec(P, "call.removeOverlap.receives_configured_%s.present" % k, "'%s' in passed" % k, sctx, "assert")
+        E.prove_spec(P, "call.removeOverlap.receives_configured_%s.value" % k,
+                     "implies('%s' in passed, passed['%s'] == self.options['%s'])" % (k, k, k), sctx, "assert")
 
 
 CONTRACTS["force.Force.compute"] = {
@@ -144,3 +145,8 @@ def replay(m):
 # the same contract from the other entry state: the engine already reports a layering (a second compute on the same engine)
 CONTRACTS["force.Force.compute@again"] = dict(CONTRACTS["force.Force.compute"], func_alias="force.Force.compute",
                                               params={"self": force_full(layers="slist:slist:ref:Node")})
+
+# ... and with the lower bound switched off (`minPos: None`, a documented configuration): `None` must reach removeOverlap as
+# `None` - an option that is dropped on the way is replaced by removeOverlap's own default bound 0
+CONTRACTS["force.Force.compute@no_lower_bound"] = dict(CONTRACTS["force.Force.compute"], func_alias="force.Force.compute",
+                                                       params={"self": force_full(minpos="none")})
